@@ -1,9 +1,117 @@
 import Qx.Driver.Proto
 import Qx.Xml.Tree
-/-! Driver ops for the XML text layer (`xml-…` lines of the C01 driver). Filled in by the tier-A work. -/
+import Qx.Xml.Canon
+import Qx.Xml.Parse
+/-!
+Driver ops for the XML text layer (`xml-…` lines of the C01 driver), TAB-separated fields:
+
+  xml-esc-text     <hex>    → hex of `escText`
+  xml-esc-attr     <hex>    → hex of `escAttr`
+  xml-unesc        <hex>    → hex of `unesc`
+  xml-render       <tree>   → hex of `render t`                      (byte-exact against QXmlStreamWriter)
+  xml-render-parse <tree>   → canon of `qdomView (parse (render t))` (QDom, namespace processing on) | none
+  xml-parse        <hexdoc> → canon of `qdomView (parse doc)` | none
+  xml-parse-plain  <hexdoc> → canon of `parse doc` | none             (QDom, namespace processing off)
+
+hex = lower-case hex of UTF-8, `-` for the empty string; <tree> = the encoding of `Qx.Xml.canon`
+(Qx/Xml/Canon.lean) read literally: empty and adjacent text nodes are kept as given.
+-/
 namespace Qx.Driver.XmlOps
+open Qx.Xml
+
+def unhexStr (w : String) : Option Str :=
+  if w = "-" then some [] else
+  match fromHex w with
+  | some bs => (String.fromUTF8? (ByteArray.mk bs.toArray)).map String.toList
+  | none => none
+
+/-- tokens of the tree encoding: `(`, `)` and words -/
+def tokenize (s : List Char) : List String :=
+  let r := s.foldl (fun (acc : List String × List Char) c =>
+    let flush := if acc.2.isEmpty then acc.1 else String.ofList acc.2.reverse :: acc.1
+    if c = '(' then ("(" :: flush, [])
+    else if c = ')' then (")" :: flush, [])
+    else if c = ' ' then (flush, [])
+    else (acc.1, c :: acc.2)) ([], [])
+  (if r.2.isEmpty then r.1 else String.ofList r.2.reverse :: r.1).reverse
+
+def decodeAttrs : Nat → List String → Option (List (Str × Str) × List String)
+  | 0, _ => none
+  | f + 1, ts =>
+    match ts with
+    | ")" :: rest => some ([], rest)
+    | "(" :: k :: v :: ")" :: rest =>
+      match unhexStr k, unhexStr v, decodeAttrs f rest with
+      | some k', some v', some r => some ((k', v') :: r.1, r.2)
+      | _, _, _ => none
+    | _ => none
+
+mutual
+  def decodeNode : Nat → List String → Option (Node × List String)
+    | 0, _ => none
+    | f + 1, ts =>
+      match ts with
+      | "(" :: "T" :: w :: ")" :: rest => (unhexStr w).map fun s => (Node.text s, rest)
+      | "(" :: "E" :: w :: "(" :: rest =>
+        match unhexStr w, decodeAttrs (rest.length + 1) rest with
+        | some n, some a =>
+          match a.2 with
+          | "(" :: rest2 =>
+            match decodeNodes f rest2 with
+            | some k =>
+              match k.2 with
+              | ")" :: rest3 => some (Node.elem n a.1 k.1, rest3)
+              | _ => none
+            | none => none
+          | _ => none
+        | _, _ => none
+      | _ => none
+  /-- nodes up to the closing `)` of the list -/
+  def decodeNodes : Nat → List String → Option (List Node × List String)
+    | 0, _ => none
+    | f + 1, ts =>
+      match ts with
+      | ")" :: rest => some ([], rest)
+      | _ =>
+        match decodeNode f ts with
+        | some r =>
+          match decodeNodes f r.2 with
+          | some q => some (r.1 :: q.1, q.2)
+          | none => none
+        | none => none
+end
+
+def decodeTree (s : String) : Option Node :=
+  let ts := tokenize s.toList
+  match decodeNode (ts.length + 1) ts with
+  | some r => if r.2.isEmpty then some r.1 else none
+  | none => none
+
+def showTree : Option Node → String
+  | some t => canon t
+  | none => "none"
+
+def onStr (w : String) (f : Str → String) : String :=
+  match unhexStr w with
+  | some s => f s
+  | none => "bad-hex"
 
 /-- handle one op line; `none` when the line is not an xml-layer op -/
-def step (_line : String) : Option String := none
+def step (line : String) : Option String :=
+  match fields line with
+  | ["xml-esc-text", w] => some (onStr w fun s => hexOf (escText s))
+  | ["xml-esc-attr", w] => some (onStr w fun s => hexOf (escAttr s))
+  | ["xml-unesc", w] => some (onStr w fun s => hexOf (unesc s))
+  | ["xml-render", t] =>
+    some (match decodeTree t with
+      | some t => hexOf (render t)
+      | none => "bad-tree")
+  | ["xml-render-parse", t] =>
+    some (match decodeTree t with
+      | some t => showTree ((parse (render t)).map qdomView)
+      | none => "bad-tree")
+  | ["xml-parse", w] => some (onStr w fun s => showTree ((parse s).map qdomView))
+  | ["xml-parse-plain", w] => some (onStr w fun s => showTree (parse s))
+  | _ => none
 
 end Qx.Driver.XmlOps
